@@ -31,9 +31,10 @@ const (
 	opMap
 	opFlatMap
 	opMap2
+	opZero // the zero value lazy.Eval[int]{}: a legal Eval that denotes the zero value of T
 )
 
-var opNames = []string{"Done", "Call", "Arg", "TailCall", "TailCall2", "Map", "FlatMap", "Map2"}
+var opNames = []string{"Done", "Call", "Arg", "TailCall", "TailCall2", "Map", "FlatMap", "Map2", "Eval{}"}
 
 type node struct {
 	op   int
@@ -61,6 +62,8 @@ func (n *node) String() string {
 		return fmt.Sprintf("Call(->%d)", n.v)
 	case opArg:
 		return "Done(arg)"
+	case opZero:
+		return "Eval{}"
 	case opTail:
 		return fmt.Sprintf("TailCall(->%v)", n.kids[0])
 	case opTail2:
@@ -79,7 +82,7 @@ type alt struct {
 	op, v, left int
 }
 
-var leafAlts = []alt{{opDone, 1, 0}, {opDone, 2, 0}, {opCall, 3, 0}}
+var leafAlts = []alt{{opDone, 1, 0}, {opDone, 2, 0}, {opCall, 3, 0}, {opZero, 0, 0}}
 var leafAltsBound = append(append([]alt{}, leafAlts...), alt{opArg, 0, 0})
 var unaryAlts = []alt{{opTail, 0, 0}, {opTail2, 0, 0}, {opMap, 0, 0}, {opMap, 1, 0}}
 var binaryAlts = []alt{{opFlatMap, 0, 0}, {opMap2, 0, 0}, {opMap2, 1, 0}}
@@ -125,6 +128,8 @@ func strict(n *node, env int) int {
 		return n.v
 	case opArg:
 		return env
+	case opZero:
+		return 0
 	case opTail, opTail2:
 		return strict(n.kids[0], env)
 	case opMap:
@@ -176,6 +181,8 @@ func (b *builder) build(n *node, env int) lazy.Eval[int] {
 		return lazy.Done(n.v)
 	case opArg:
 		return lazy.Done(env)
+	case opZero:
+		return lazy.Eval[int]{}
 	case opCall:
 		c := b.counter("Call", n)
 		return lazy.Call(func() int {
@@ -365,6 +372,68 @@ func seqOnce(x *mc.X) {
 	x.Tag("once=" + k.name)
 }
 
+// zeroValue: the zero value lazy.Eval[int]{} as the receiver / argument of every exported
+// entry point. It denotes the zero value of T (Resume substitutes a function returning zero
+// for the missing first function; reflectfp.LazyCall builds Evals from reflect.Zero).
+func zeroValue(x *mc.X) {
+	type zcase struct {
+		name string
+		fn   string
+		run  func() int
+		want int
+	}
+	var z lazy.Eval[int]
+	inc := func(a int) int { return a + 41 }
+	cases := []zcase{
+		{"Eval{}.Get()", "Eval.Get", func() int { return z.Get() }, 0},
+		{"Run(Eval{})", "Run", func() int { return lazy.Run(z) }, 0},
+		{"Eval{}.Resume()", "Eval.Resume", func() int {
+			v, cont := z.Resume()
+			if cont != nil {
+				return -1000
+			}
+			return v
+		}, 0},
+		{"Eval{}.Map(a+41).Get()", "Eval.Map", func() int { return z.Map(inc).Get() }, 41},
+		{"Map(Eval{}, a+41).Get()", "Map", func() int { return lazy.Map(z, inc).Get() }, 41},
+		{"Eval{}.FlatMap(v=>Done(v+41)).Get()", "Eval.FlatMap", func() int { return z.FlatMap(func(v int) lazy.Eval[int] { return lazy.Done(v + 41) }).Get() }, 41},
+		{"FlatMap(Eval{}, v=>Eval{}).Get()", "FlatMap", func() int { return lazy.FlatMap(z, func(int) lazy.Eval[int] { return lazy.Eval[int]{} }).Get() }, 0},
+		{"Done(5).FlatMap(v=>Eval{}).Get()", "Eval.FlatMap", func() int { return lazy.Done(5).FlatMap(func(int) lazy.Eval[int] { return lazy.Eval[int]{} }).Get() }, 0},
+		{"Call(->5).FlatMap(v=>Eval{}).Map(a+41).Get()", "Eval.FlatMap", func() int {
+			return lazy.Call(func() int { return 5 }).FlatMap(func(int) lazy.Eval[int] { return lazy.Eval[int]{} }).Map(inc).Get()
+		}, 41},
+		{"Map2(Eval{}, Done(5), a-b).Get()", "Map2", func() int { return lazy.Map2(z, lazy.Done(5), binaryG[0]).Get() }, -5},
+		{"Map2(Done(5), Eval{}, a-b).Get()", "Map2", func() int { return lazy.Map2(lazy.Done(5), z, binaryG[0]).Get() }, 5},
+		{"Map2(Eval{}, Eval{}, 10a+b).Get()", "Map2", func() int { return lazy.Map2(z, z, binaryG[1]).Get() }, 0},
+		{"TailCall(->Eval{}).Get()", "TailCall", func() int { return lazy.TailCall(func() lazy.Eval[int] { return lazy.Eval[int]{} }).Get() }, 0},
+		{"TailCall1(_=>Eval{}, 1).Get()", "TailCall1", func() int { return lazy.TailCall1(func(int) lazy.Eval[int] { return lazy.Eval[int]{} }, 1).Get() }, 0},
+		{"TailCall(->TailCall(->Eval{})).Map(a+41).Get()", "TailCall", func() int {
+			return lazy.TailCall(func() lazy.Eval[int] {
+				return lazy.TailCall(func() lazy.Eval[int] { return lazy.Eval[int]{} })
+			}).Map(inc).Get()
+		}, 41},
+		{"Func1(a=>a)(0) then FlatMap(v=>Eval{})", "Eval.FlatMap", func() int {
+			return lazy.Func1(func(a int) int { return a })(9).FlatMap(func(int) lazy.Eval[int] { return lazy.Eval[int]{} }).Get()
+		}, 0},
+	}
+	c := cases[x.Choose(len(cases), "entry point")]
+	times := 1 + x.Choose(2, "evaluations")
+	x.Tag("zero-value=" + c.fn)
+	x.NonTrivial()
+	for i := 0; i < times; i++ {
+		var got int
+		p := mc.Catch(func() { got = c.run() })
+		x.Logf("%s = %d (want %d), panic: %v", c.name, got, c.want, p)
+		if p != nil {
+			x.Fail("lazy."+c.fn+"/zero-value-panics", "%s panicked: %v; the zero value Eval[int]{} denotes the zero value of int, strict evaluation gives %d", c.name, p, c.want)
+		}
+		if got != c.want {
+			x.Fail("lazy."+c.fn+"/zero-value-wrong-value", "%s = %d, strict evaluation (Eval[int]{} = 0) gives %d", c.name, got, c.want)
+		}
+	}
+	x.Observe(c.name, times)
+}
+
 // ---------------------------------------------------------------- (a') shared sub-expressions
 
 // sharedCtx builds programs as DAGs: one base Eval value that several larger programs are
@@ -396,7 +465,7 @@ func (c *sharedCtx) tail(v int) lazy.Eval[int] {
 	return lazy.TailCall(func() lazy.Eval[int] { c.x.Tick(); k.runs++; return lazy.Done(v) })
 }
 
-var sharedStarts = []string{"Done(1)", "Call(->3)", "TailCall(->Done(2))", "Map2(Done(1), Call(->3), a-b)"}
+var sharedStarts = []string{"Done(1)", "Call(->3)", "TailCall(->Done(2))", "Map2(Done(1), Call(->3), a-b)", "Eval{}"}
 var sharedPatterns = []string{"Map", "FlatMap(v=>Done)", "Map2(base, Done)", "Map2(Done, base)", "mixed", "FlatMap(v=>Call|TailCall)"}
 
 func (c *sharedCtx) start(i int) sprog {
@@ -407,6 +476,8 @@ func (c *sharedCtx) start(i int) sprog {
 		return sprog{c.call(3), 3, sharedStarts[1]}
 	case 2:
 		return sprog{c.tail(2), 2, sharedStarts[2]}
+	case 4:
+		return sprog{lazy.Eval[int]{}, 0, sharedStarts[4]}
 	}
 	return sprog{lazy.Map2(lazy.Done(1), c.call(3), binaryG[0]), 1 - 3, sharedStarts[3]}
 }
@@ -438,6 +509,7 @@ func (c *sharedCtx) bind(p sprog, pattern, i int) sprog {
 var sharedExts = []struct{ name, fn string }{
 	{"Map(2a+1)", "Map"}, {"Map(7-a)", "Map"}, {"FlatMap(v=>Done(10v+1))", "FlatMap"}, {"FlatMap(v=>Call(->v+7))", "FlatMap"},
 	{"Map2(base, Done(5), a-b)", "Map2"}, {"Map2(Done(5), base, 10a+b)", "Map2"}, {"FlatMap(v=>TailCall(->Done(3v)))", "FlatMap"},
+	{"FlatMap(v=>Eval{})", "FlatMap"},
 }
 
 func (c *sharedCtx) extend(b sprog, e int) sprog {
@@ -454,11 +526,13 @@ func (c *sharedCtx) extend(b sprog, e int) sprog {
 		return sprog{lazy.Map2(b.e, lazy.Done(5), binaryG[0]), b.want - 5, sharedExts[e].name}
 	case 5:
 		return sprog{lazy.Map2(lazy.Done(5), b.e, binaryG[1]), 50 + b.want, sharedExts[e].name}
+	case 7:
+		return sprog{b.e.FlatMap(func(int) lazy.Eval[int] { return lazy.Eval[int]{} }), 0, sharedExts[e].name}
 	}
 	return sprog{b.e.FlatMap(func(a int) lazy.Eval[int] { return c.tail(3 * a) }), 3 * b.want, sharedExts[e].name}
 }
 
-// extension sets: every ordered pair of different extensions and seven triples
+// extension sets: every ordered pair of different extensions and one triple per extension
 func sharedExtSets() [][]int {
 	var out [][]int
 	n := len(sharedExts)
@@ -765,6 +839,34 @@ func isOdd0(n int) lazy.Eval[int] {
 	return lazy.TailCall(func() lazy.Eval[int] { return isEven0(n - 1) })
 }
 
+// tail-recursive loops whose base case is the zero value Eval[int]{} (value 0)
+func zeroBase0(n int) lazy.Eval[int] {
+	step()
+	if n == 0 {
+		return lazy.Eval[int]{}
+	}
+	return lazy.TailCall(func() lazy.Eval[int] { return zeroBase0(n - 1) })
+}
+
+func zeroBase1(n int) lazy.Eval[int] {
+	step()
+	if n == 0 {
+		return lazy.Eval[int]{}
+	}
+	return lazy.TailCall1(zeroBase1, n-1)
+}
+
+func zeroBase3(n, a, b int) lazy.Eval[int] {
+	step()
+	if a != 7 || b != 8 {
+		badArgs(3)
+	}
+	if n == 0 {
+		return lazy.Eval[int]{}
+	}
+	return lazy.TailCall3(zeroBase3, n-1, a, b)
+}
+
 // three functions calling each other in a ring through TailCall3/TailCall2/TailCall1
 func ringA(n, acc, tag int) lazy.Eval[int] {
 	step()
@@ -820,6 +922,14 @@ func stackVariants() []stackVariant {
 		}, parity, func(n int) int { return n + 1 }},
 		stackVariant{"ring(TailCall3,2,1)", "lazy.TailCall3", func(n int) int { return lazy.TailCall3(ringA, n, 0, 1).Get() },
 			func(n int) int { return n*10 + []int{1, 2, 3}[n%3] }, func(n int) int { return n + 1 }},
+	)
+	zero := func(int) int { return 0 }
+	vs = append(vs,
+		stackVariant{"TailCall/base case Eval{}", "lazy.TailCall", func(n int) int {
+			return lazy.TailCall(func() lazy.Eval[int] { return zeroBase0(n) }).Get()
+		}, zero, func(n int) int { return n + 1 }},
+		stackVariant{"TailCall1/base case Eval{}", "lazy.TailCall1", func(n int) int { return lazy.TailCall1(zeroBase1, n).Get() }, zero, func(n int) int { return n + 1 }},
+		stackVariant{"TailCall3/base case Eval{}", "lazy.TailCall3", func(n int) int { return lazy.TailCall3(zeroBase3, n, 7, 8).Get() }, zero, func(n int) int { return n + 1 }},
 	)
 	return vs
 }
@@ -994,13 +1104,15 @@ func concScenario(k onceKind, shapes [][2]int) func(x *mc.X) {
 
 func main() {
 	mc.Main("C16", func(r *mc.Registry) {
-		r.Rule = "eval/*: every expression tree with at most N nodes over {Done 1|2, Call ->3, Done(arg) under a FlatMap binder, TailCall, TailCall2, Map f, FlatMap, Map2 g} x Get called 0..3 times x (methods | package functions); non-trivial = demanded and at least two nodes, or a thunk demanded at least twice; distinct = (program, gets, value, thunk executions). " +
+		r.Rule = "eval/*: every expression tree with at most N nodes over {Done 1|2, Call ->3, the zero value Eval[int]{} (= 0), Done(arg) under a FlatMap binder, TailCall, TailCall2, Map f, FlatMap, Map2 g} x Get called 0..3 times x (methods | package functions); non-trivial = demanded and at least two nodes, or a thunk demanded at least twice; distinct = (program, gets, value, thunk executions). " +
 			"stack/*: variant x every depth 0..2000, and variant x ladder rung; call frames sampled inside the recursive function at steps 0..3, powers of two and every 128th (ladder: 65536th) step. " +
-			"eval/shared-base: (start in {Done, Call, TailCall, Map2} x bind pattern in {Map, FlatMap->Done, Map2(base,_), Map2(_,base), mixed, FlatMap->Call|TailCall} x 0..12 binds) = one shared base Eval value x (every ordered pair of 7 different extensions through Map/FlatMap/Map2, and 7 triples) x 5 build/evaluation orders; every derived program is compared with strict evaluation, every thunk incl. those of the shared base runs <= 1 time. " +
+			"eval/zero-value: Eval[int]{} as receiver/argument of Get, Run, Resume, Map, FlatMap, Map2 and as the result of FlatMap continuations and TailCall/TailCall1 thunks, evaluated 1..2 times; the stack scenarios include loops whose base case is Eval[int]{}. " +
+			"eval/shared-base: (start in {Done, Call, TailCall, Map2, Eval{}} x bind pattern in {Map, FlatMap->Done, Map2(base,_), Map2(_,base), mixed, FlatMap->Call|TailCall} x 0..12 binds) = one shared base Eval value x (every ordered pair of 8 different extensions through Map/FlatMap/Map2 (one returns Eval{}), and 8 triples) x 5 build/evaluation orders; every derived program is compared with strict evaluation, every thunk incl. those of the shared base runs <= 1 time. " +
 			"eval/panicking-thunk: deferred-computation kind x (thunk panics on its first execution only | on every execution) x 3..4 requests, each under recover; conc-panic/*: the same thunks (panic after a scheduling point) demanded by 2 threads 1..2 times each, every interleaving. Only the execution count (<= 1) is judged there. " +
 			"conc/*: every interleaving (sleep sets) of the threads at every sync.Once entry/exit of the library and at a point inside each thunk body; non-trivial = the scheduler switched between two started threads"
 		r.Assumptions = []string{
 			"'executed at most once, even when the result is requested repeatedly' is read literally: it also holds for a thunk whose execution panicked (sync.Once marks itself done on panic); what later requests return, or whether they panic, is not demanded",
+			"the zero value lazy.Eval[T]{} is a legal program denoting the zero value of T (Eval.Resume documents and implements it; reflectfp.LazyCall starts from reflect.Zero of the Eval type)",
 			"the strict interpreter in the driver (direct recursion over the same tree) defines 'the same value as direct strict evaluation'",
 			"call-stack depth is measured in frames (runtime.Callers) and by the 1 MiB runtime stack limit; a fatal stack overflow kills the worker and is reported with key crash",
 			"the ladder 10^4..2*10^7 is a finite set of depths, not an enumeration of all depths up to 2*10^7; every depth is enumerated up to 2000",
@@ -1019,6 +1131,7 @@ func main() {
 		sc = r.Seq("eval/shared-base", sharedBase)
 		sc.SplitDepth = 2
 		sc.Shard = true
+		r.Seq("eval/zero-value", zeroValue)
 		r.Seq("eval/memoize-sequential", seqOnce)
 		r.Seq("eval/panicking-thunk", seqPanic)
 
@@ -1089,7 +1202,6 @@ func main() {
 			"seq/list/iterator.FoldRight: built on TailCall but not tail-recursive (the combining function runs after the recursive result), so the property's stack claim does not apply; their memoised cells are covered through fp.MakeList and list.Generate",
 			"fn1.Memoize (memoises on the first argument only; not named by the property)",
 			"a thunk that demands itself re-entrantly (sync.Once self-deadlock; not part of the statement)",
-			"the zero value lazy.Eval[T]{} (not built from the constructors the property names)",
 			"heap retention of a demanded TailCall chain (the property speaks about stack space only)",
 		}
 	})
